@@ -622,8 +622,8 @@ def post_process(workdir: Path, counters: Dict[str, Any]) -> None:
 
 def shard_crash(spec: Dict[str, Any], res: Dict[str, Any]) -> Optional[Dict[str, Any]]:
     """a worker that died is what this property is about: the journal holds the guilty case."""
-    if res.get('rc') is None:
-        return None  # timeout: inconclusive
+    if res.get('rc') is None or res.get('rc') == 'memory':
+        return None  # timeout / the harness's own memory budget: inconclusive
     report = ''
     for path in sorted(glob.glob(os.path.join(res.get('workdir', ''), f'asan-shard{res["shard"]}.*'))):
         try:
